@@ -109,7 +109,25 @@ pub fn build_q(kind: Kind, n: usize, compressed: bool, opt: OptAt, fillers: [usi
             }
             _ => {
                 if compressed {
-                    a.rrfix(T_NS, ttl, 2).ptr(12);
+                    // every record type whose data holds names the library must expand when a deletion
+                    // decompresses the packet, the names ending in a pointer
+                    match rng.below(6) {
+                        0 => {
+                            a.rrfix(T_CNAME, ttl, 2).ptr(12);
+                        }
+                        1 => {
+                            a.rrfix(T_PTR, ttl, 5).label(b"pt").ptr(12);
+                        }
+                        2 => {
+                            a.rrfix(T_MX, ttl, 4).u16(10 + i as u16).ptr(12);
+                        }
+                        3 => {
+                            a.rrfix(T_SOA, ttl, 2 + 5 + 20).ptr(12).label(b"hm").ptr(12).raw(&[1, 2, 3, 4, 5, 6, 7, 8, 9, 10, 11, 12, 13, 14, 15, 16, 17, 18, 19, 20]);
+                        }
+                        _ => {
+                            a.rrfix(T_NS, ttl, 2).ptr(12);
+                        }
+                    }
                 } else {
                     a.rrfix(T_NS, ttl, 11).label(b"q").label(b"example").root();
                 }
